@@ -224,6 +224,10 @@ class Fn:
             if t['k'] == 'call':
                 yield i, t
 
+    def own_calls(self):
+        """call terminators written in this function's own source (not spliced in from a new helper)"""
+        return [(b, t) for b, t in self.calls() if not self.blocks[b].get('inl')]
+
     def stmts(self, blocks=None):
         for i, bl in enumerate(self.blocks):
             if blocks is not None and i not in blocks:
@@ -401,6 +405,60 @@ def inline_new_helpers(fns_by_path, pinned, max_inlines=60, max_callee_blocks=40
     return done
 
 
+_LIFETIME = re.compile(r"'[^ ,>)]+ ?")
+
+
+def sig_key(fj):
+    """signature of a function modulo lifetimes: kind, parameter types, return type"""
+    tys = [_LIFETIME.sub('', l['ty']) for l in fj['locals'][1:fj['arg_count'] + 1]]
+    return json.dumps([fj.get('def_kind'), tys, _LIFETIME.sub('', fj.get('ret') or '')])
+
+
+def detect_renames(fns, pinned):
+    """{new path: pinned path} for functions that disappeared from the pinned list while exactly one new function with the same
+    parent (module / impl) and the same signature appeared: a rename.  The facts are rewritten to the pinned name so that every
+    anchored rule keeps its anchor."""
+    cur = {fj['path']: fj for fj in fns}
+    missing = [p for p in pinned if p not in cur and '{closure' not in p]
+    new = [p for p in cur if p not in pinned and '{closure' not in p]
+    cand = {}
+    for m in missing:
+        par = m.rsplit('::', 1)[0]
+        c = [n for n in new if n.rsplit('::', 1)[0] == par and sig_key(cur[n]) == pinned[m]]
+        if len(c) == 1:
+            cand[m] = c[0]
+    out = {}
+    for m, n in cand.items():
+        if list(cand.values()).count(n) == 1:
+            out[n] = m
+    return out
+
+
+def _rename_strings(x, ren):
+    if isinstance(x, list):
+        for i, y in enumerate(x):
+            if isinstance(y, str):
+                x[i] = _rename_one(y, ren)
+            else:
+                _rename_strings(y, ren)
+    elif isinstance(x, dict):
+        for k, y in x.items():
+            if isinstance(y, str):
+                if k in ('path', 'resolved', 'fn', 'closure'):
+                    x[k] = _rename_one(y, ren)
+            else:
+                _rename_strings(y, ren)
+
+
+def _rename_one(s, ren):
+    for n, m in ren.items():
+        if s == n:
+            return m
+        if s.startswith(n + '::{'):
+            return m + s[len(n):]
+    return s
+
+
 def load_pinned():
     p = os.path.join(os.path.dirname(os.path.abspath(__file__)), 'pinned_fns.json')
     if not os.path.exists(p):
@@ -415,10 +473,17 @@ class Facts:
         self.fns = {}
         self.all_fns = []
         self.inlined = {}
+        self.transparent_fns = {}
+        self.renames = {}
         pinned = load_pinned()
         for crate, d in (('lib', self.lib), ('bin', self.bin)):
             if not d:
                 continue
+            if pinned is not None and isinstance(pinned[crate], dict):
+                ren = detect_renames(d['fns'], pinned[crate])
+                if ren:
+                    _rename_strings(d['fns'], ren)
+                    self.renames.update({(crate, k_): v_ for k_, v_ in ren.items()})
             if pinned is not None:
                 byp = {}
                 for fj in d['fns']:
@@ -445,6 +510,7 @@ class Facts:
                         if a.get('k') == 'const' and 'fn' in a:
                             still.add((f.crate, a['fn']))
             drop = {x for x in self.transparent if x not in still}
+            self.transparent_fns = {(f.path if f.crate == 'lib' else 'bin::' + f.path): f for f in self.all_fns if (f.crate, f.path) in drop}
             self.all_fns = [f for f in self.all_fns if (f.crate, f.path) not in drop]
             for crate, p_ in drop:
                 self.fns.pop(p_ if crate == 'lib' else 'bin::' + p_, None)
